@@ -3,8 +3,9 @@ Executable check of the hypotheses of the filesystem-level theorems
 (`Proofs.FsInv.Inv`, `Proofs.FsShape.ShapeNodes`, `Proofs.FsSync.Sync`) on a
 concrete state.  The lock-step suite asks for it on the initial state it derives
 from each image and after every call: the theorems then speak about the very
-states the real code is compared with.  (This is a test of the hypotheses, not a
-proof that the checker is sound.)
+states the real code is compared with.  `Proofs.FsCheck.checkInv_sound` proves
+that a passed check implies `Inv` and `ShapeNodes` (the `sync.*` clauses are a
+test only).
 -/
 import PyFatModel.Model.Fs
 
@@ -18,36 +19,52 @@ def nodupN : List Nat → Bool
   | [] => true
   | x :: xs => !xs.contains x && nodupN xs
 
+def ownedB (s : St) : List (List Nat) := (s.rootChain :: s.nodes.map (·.chain)).filter (fun c => !c.isEmpty)
+
+def allocatableB (v : Vol) (fat : List Nat) (i : Nat) : Bool :=
+  !(decide (v.p.cv.minData > i ∨ i > v.p.cv.maxData)) && decide (fat.getD i 0 = v.p.cv.free) && !Model.Alloc.skipIdx v.p i
+
+def ckVol (v : Vol) (count : Nat) : Bool := decide (v.bound ≤ count + 2) && decide (64 ≤ v.bpc)
+def ckLink (s : St) : Bool :=
+  s.nodes.all fun n => (n.parent == 0 && n.path == [n.key]) ||
+    s.nodes.any (fun d => d.isDir && d.clus == n.parent && n.path == d.path ++ [n.key])
+def ckPaths (s : St) : Bool := nodupB (s.nodes.map (·.path))
+def ckDirClus (s : St) : Bool := s.nodes.all fun d => !d.isDir || d.clus != 0
+def ckDirId (s : St) : Bool := nodupN ((s.nodes.filter (·.isDir)).map (·.clus))
+def ckLen (count : Nat) (s : St) : Bool := decide (count + 2 ≤ s.fat.length)
+def ckChain (v : Vol) (s : St) : Bool := (ownedB s).all fun c => Model.Alloc.chainOf v.p s.fat (c.headD 0) == .ok c
+def ckInData (count : Nat) (s : St) : Bool := (ownedB s).flatten.all fun c => decide (2 ≤ c ∧ c < count + 2)
+def ckDisjoint (s : St) : Bool := nodupN (ownedB s).flatten
+def ckRest (v : Vol) (count : Nat) (s : St) : Bool :=
+  (List.range (count + 2)).all fun c => decide (c < 2) || (ownedB s).flatten.contains c ||
+    decide (s.fat.getD c 0 = v.p.cv.free) || decide (s.fat.getD c 0 = v.p.cv.bad)
+def ckHint (v : Vol) (s : St) : Bool := (List.range (min s.hint v.bound)).all fun i => !allocatableB v s.fat i
+def ckRoot (v : Vol) (s : St) : Bool := if v.fixedRoot then s.rootChain.isEmpty else !s.rootChain.isEmpty
+def ckDirs (s : St) : Bool := s.nodes.all fun d => !d.isDir || !d.chain.isEmpty
+def ckFitsRoot (v : Vol) (s : St) : Bool :=
+  decide (dirBytes v s.nodes .root ≤ (if v.fixedRoot then v.rootCap else s.rootChain.length * v.bpc))
+def ckFitsDir (v : Vol) (s : St) : Bool :=
+  s.nodes.all fun d => !d.isDir || decide (dirBytes v s.nodes (.node d) ≤ d.chain.length * v.bpc)
+def ckShape (v : Vol) (s : St) : Bool :=
+  s.nodes.all fun f => f.isDir || (f.chain.isEmpty && f.size == 0) ||
+    (!f.chain.isEmpty && f.chain.length == max 1 (numClus v.bpc f.size))
+def ckSync (s : St) : Bool :=
+  s.dfat == s.fat && (s.nodes.map Node.dent).all (fun e => s.disk.contains e) &&
+    s.disk.all (fun e => (s.nodes.map Node.dent).contains e) && s.disk.length == s.nodes.length
+
+/-- everything the theorems assume (without the test-only `sync` clause) -/
+def checkCore (v : Vol) (count : Nat) (s : St) : Bool :=
+  ckVol v count && ckLink s && ckPaths s && ckDirClus s && ckDirId s && ckLen count s && ckChain v s && ckInData count s &&
+    ckDisjoint s && ckRest v count s && ckHint v s && ckRoot v s && ckDirs s && ckFitsRoot v s && ckFitsDir v s && ckShape v s
+
 /-- one failed clause per entry of the answer; `[]` = every hypothesis holds -/
 def checkInv (v : Vol) (count : Nat) (s : St) : List String :=
-  let owned := (s.rootChain :: s.nodes.map (·.chain)).filter (fun c => !c.isEmpty)
-  let flat := owned.flatten
-  let isFree := fun (c : Nat) => s.fat.getD c 0 == v.p.cv.free || s.fat.getD c 0 == v.p.cv.bad
-  let allocatable := fun (i : Nat) =>
-    !(decide (v.p.cv.minData > i ∨ i > v.p.cv.maxData)) && s.fat.getD i 0 == v.p.cv.free && !Model.Alloc.skipIdx v.p i
   let clauses : List (String × Bool) := [
-    ("vol.bound", decide (v.bound ≤ count + 2)),
-    ("vol.bpc", decide (64 ≤ v.bpc)),
-    ("tree.link", s.nodes.all fun n => (n.parent == 0 && n.path == [n.key]) ||
-        s.nodes.any (fun d => d.isDir && d.clus == n.parent && n.path == d.path ++ [n.key])),
-    ("tree.paths", nodupB (s.nodes.map (·.path))),
-    ("tree.dirClus", s.nodes.all fun d => !d.isDir || d.clus != 0),
-    ("tree.dirId", nodupN ((s.nodes.filter (·.isDir)).map (·.clus))),
-    ("rep.len", decide (count + 2 ≤ s.fat.length)),
-    ("rep.chain", owned.all fun c => Model.Alloc.chainOf v.p s.fat (c.headD 0) == .ok c),
-    ("rep.inData", flat.all fun c => decide (2 ≤ c ∧ c < count + 2)),
-    ("rep.disjoint", nodupN flat),
-    ("rep.rest", (List.range (count + 2)).all fun c => c < 2 || flat.contains c || isFree c),
-    ("hint", (List.range (min s.hint v.bound)).all fun i => !allocatable i),
-    ("root", if v.fixedRoot then s.rootChain.isEmpty else !s.rootChain.isEmpty),
-    ("dirs", s.nodes.all fun d => !d.isDir || !d.chain.isEmpty),
-    ("fitsRoot", decide (dirBytes v s.nodes .root ≤ (if v.fixedRoot then v.rootCap else s.rootChain.length * v.bpc))),
-    ("fitsDir", s.nodes.all fun d => !d.isDir || decide (dirBytes v s.nodes (.node d) ≤ d.chain.length * v.bpc)),
-    ("shape", s.nodes.all fun f => f.isDir || (f.chain.isEmpty && f.size == 0) ||
-        (!f.chain.isEmpty && f.chain.length == max 1 (numClus v.bpc f.size))),
-    ("sync.fat", s.dfat == s.fat),
-    ("sync.disk", (s.nodes.map Node.dent).all (fun e => s.disk.contains e) && s.disk.all (fun e => (s.nodes.map Node.dent).contains e)
-        && s.disk.length == s.nodes.length)]
+    ("vol", ckVol v count), ("tree.link", ckLink s), ("tree.paths", ckPaths s), ("tree.dirClus", ckDirClus s),
+    ("tree.dirId", ckDirId s), ("rep.len", ckLen count s), ("rep.chain", ckChain v s), ("rep.inData", ckInData count s),
+    ("rep.disjoint", ckDisjoint s), ("rep.rest", ckRest v count s), ("hint", ckHint v s), ("root", ckRoot v s),
+    ("dirs", ckDirs s), ("fitsRoot", ckFitsRoot v s), ("fitsDir", ckFitsDir v s), ("shape", ckShape v s),
+    ("sync", ckSync s)]
   (clauses.filter (fun c => !c.2)).map (·.1)
 
 end Model.Fs
